@@ -1361,6 +1361,8 @@ func (p *Printer) command(cmd Command, redirs []*Redirect) (startRedirs int) {
 			p.decLevel()
 		}
 		p.semiRsrv("esac", cmd.Esac)
+		// The ";;" of the last item must not count as this statement's separator.
+		p.wroteSemi = false
 	case *ArithmCmd:
 		p.w.WriteString("((")
 		if cmd.Unsigned {
